@@ -41,11 +41,28 @@ func runRunner(offsetSpec, initSpec string) []string {
 			offsets = append(offsets, n)
 		}
 	}
-	w := world.New(world.DefaultOptions())
+	wopts := world.DefaultOptions()
+	if strings.Contains(initSpec, "hold|") {
+		wopts.ZeroLockBackoff = false // the real 100 ms back-off between lock attempts
+	}
+	w := world.New(wopts)
 	defer w.Close()
 	p := w.NewProc()
+	type hold struct {
+		key string
+		ms  int
+	}
+	var holds []hold
 	if initSpec != "-" {
 		for _, it := range strings.Split(initSpec, ",") {
+			if strings.HasPrefix(it, "hold|") {
+				// hold|<addr>|<ms>: another writer holds the server's lock for <ms> of REAL time once the component starts
+				// (contention: the outcome commit waits through one or two back-offs; it must still be recorded)
+				parts := strings.Split(it, "|")
+				ms, _ := strconv.Atoi(parts[len(parts)-1])
+				holds = append(holds, hold{key: "servers:lock:" + parts[1], ms: ms})
+				continue
+			}
 			if strings.HasPrefix(it, "adv") {
 				ns, _ := strconv.ParseInt(it[3:], 10, 64)
 				w.Advance(time.Duration(ns))
@@ -76,6 +93,13 @@ func runRunner(offsetSpec, initSpec string) []string {
 	}
 	ctx, cancel := context.WithTimeout(context.Background(), 10*time.Second)
 	defer cancel()
+	for _, h := range holds {
+		_ = w.MR.Set(h.key, "held-by-another-writer")
+		go func(h hold) {
+			time.Sleep(time.Duration(h.ms) * time.Millisecond)
+			w.MR.Del(h.key)
+		}(h)
+	}
 	if err := app.Start(ctx); err != nil {
 		return []string{"start-error:" + strings.ReplaceAll(err.Error(), " ", "_")}
 	}
